@@ -5,9 +5,8 @@
    listed positions True) is the row of the integer with exactly those bits; (3) the bytewise | and & that
    NumPy applies to rows are | and & of the integers; (4) a row is all-zero iff its integer is zero (validity).
    So the set semantics proved on integers in WideProofs / WideMaps are the semantics of the stored bytes. *)
-From HS Require Import Prelude Packed PackedProofs PackedOps WideProofs.
+From HS Require Import Prelude Packed PackedProofs PackedOps WideProofs WideRow.
 
-Definition le_int (l : list Z) : Z := fold_right (fun b acc => b + 256 * acc) 0 l.
 
 Lemma le_int_nonneg (l : list Z) : bytes_ok l -> 0 <= le_int l.
 Proof.
@@ -57,9 +56,6 @@ Proof.
 Qed.
 
 (* (2) np.packbits(arr, bitorder="little") with arr[k] = (k in bits), arr of 8*width entries *)
-Definition bitvals_to_packed (bits : list Z) (width : Z) : list Z :=
-  map (fun j => pack8 (map (fun i => existsb (Z.eqb (8 * j + i)) bits) bits8)) (zrange 0 width).
-
 Lemma zlen_bitvals_to_packed bits width : 0 <= width -> zlen (bitvals_to_packed bits width) = width.
 Proof. intros H. unfold bitvals_to_packed. rewrite zlen_map, zlen_zrange. lia. Qed.
 
@@ -98,12 +94,6 @@ Proof.
 Qed.
 
 (* (3) bytewise operations on rows of one length *)
-Fixpoint zip_with (f : Z -> Z -> Z) (a b : list Z) : list Z :=
-  match a, b with
-  | x :: s, y :: t => f x y :: zip_with f s t
-  | _, _ => []
-  end.
-
 Lemma le_int_zip (f : Z -> Z -> Z) (g : bool -> bool -> bool) :
   (forall x y k, Z.testbit (f x y) k = g (Z.testbit x k) (Z.testbit y k)) ->
   (forall x y, 0 <= x < 256 -> 0 <= y < 256 -> 0 <= f x y < 256) ->
